@@ -103,6 +103,15 @@ def run(ctx):
             if isinstance(n, ast.Call) and isinstance(n.func, ast.Name) and n.func.id == "exit":
                 ctx.count("exits")
                 v = prog.fold_or_none(n.args[0], f2.module) if n.args else None
+                if v is None and n.args and isinstance(n.args[0], ast.Name):
+                    # a constant of the (enclosing) function: bound exactly once to a literal
+                    asg = [a_ for a_ in ast.walk(f2.node) if isinstance(a_, ast.Assign) and any(isinstance(t_, ast.Name) and t_.id == n.args[0].id for t_ in a_.targets)]
+                    nst = sum(1 for x_ in ast.walk(f2.node) if isinstance(x_, ast.Name) and isinstance(x_.ctx, ast.Store) and x_.id == n.args[0].id)
+                    if len(asg) == 1 and nst == 1:
+                        v = prog.fold_or_none(asg[0].value, f2.module)
+                if v is None and n.args and f2.qual in prog.funcs:
+                    tv_ = summarize(prog, f2).ta.terms_at.get(n.args[0])      # a local constant (EXIT_FAILURE = 1)
+                    v = tv_[1] if tv_ is not None and is_const(tv_) else None
                 ctx.ob("C20.a", q, isinstance(v, int) and v != 0, f"exit({v}) is a non-zero status", func=q, file=file, node=n,
                        fail=f"a rejection / failure path exits with status {v}")
     # ---------------------------------------------------------------- C20.b
@@ -236,6 +245,9 @@ def run(ctx):
                     enum_b = truth
                 elif a[2][1] == ("global", "bool"):
                     bool_b = truth
+            elif a[0] == "cmp" and a[1] in ("in", "not in") and is_type_term(a[2]) and strip(a[3])[0] in ("tuple", "list", "set") and strip(a[3])[1] \
+                    and all(strip(x) == FAN for x in strip(a[3])[1]):
+                fan_g = (a[1] == "in") == truth          # membership in a collection that holds FanSpeed only
             elif a[0] == "cmp" and a[1] in ("==", "is", "!=", "is not"):
                 l, r = strip(a[2]), strip(a[3])
                 if is_type_term(r):
@@ -265,7 +277,7 @@ def run(ctx):
         enum_b, bool_b, num_b, fan_g = decisions(conds)
         v = strip(val)
         typed_call = v[0] == "call" and v[1][0] == "dyn" and is_type_term(v[1][1]) and len(v[2]) == 1
-        by_name_idx = v[2] if (v[0] == "sub" and is_type_term(v[1])) else (
+        by_name_idx = v[2] if (v[0] == "sub" and (is_type_term(v[1]) or (strip(v[1])[0] == "attr" and strip(v[1])[2] == "__members__" and is_type_term(strip(v[1])[1])))) else (
             v[2][0] if (v[0] == "call" and v[1][0] == "meth" and v[1][2] == "get" and strip(v[1][1])[0] == "attr" and strip(v[1][1])[2] == "__members__"
                         and is_type_term(strip(v[1][1])[1]) and v[2]) else None)
         if enum_b and num_b and typed_call:
